@@ -180,3 +180,13 @@ Proof.
   - reflexivity.
   - vm_compute. reflexivity.
 Qed.
+
+(* ---- audit: the SOLVER hypotheses of C16_optimal_solution_is_closest_flow(_checked) / C16_integral_optimum_is_real_optimum: a
+   satisfying assignment that is optimal among all satisfying assignments, on a -> b (3), b -> c (5), integer type, domain check true *)
+From FP Require Import AuditExamples17.
+Example C16_solver_hypotheses_satisfiable :
+  mef_domain_b amef = true /\ mef_int amef = true /\
+  sat amef_a (encode_mef amef) /\ (forall b, sat b (encode_mef amef) -> obj_le (encode_mef amef) amef_a b) /\
+  objective amef_a (encode_mef amef) == 2 /\ xof amef_a (0, 1)%N == 3 /\ xof amef_a (1, 2)%N == 3.
+Proof. exact amef_solver_hypotheses. Qed.
+Print Assumptions C16_solver_hypotheses_satisfiable.
